@@ -1,5 +1,6 @@
 SPECIFICATION TSpec
 CONSTANT LoadStepBound = 108
+CONSTANT SoloStepBound = 600
 INVARIANT Report
 POSTCONDITION Accepted
 CHECK_DEADLOCK FALSE
